@@ -68,6 +68,8 @@ class Analyzer:
         self.summaries = summaries      # object with .mod(callee id) / .ret(callee id)  (optional)
         self.interproc = interproc
         self._promoted_cache = {}
+        self.nowrap = None              # optional predicate(term): additions of small constants to such terms are assumed not to wrap (A3)
+        self.invariants = []            # global field invariants (assume on read / obligation on write), see field_inv()
         self.cast_log = None            # when a list: (rvalue, source interval, from type, to type) of every int->int cast
         self.watch = None               # optional predicate on callee paths: argument values are recorded in Result.call_states
         self.closure_seeds = {}         # closure body id -> {arg local: (lo, hi)}
@@ -142,6 +144,40 @@ class Analyzer:
                 return None
         return root, steps, tix
 
+    def field_inv(self, pj):
+        """global field invariant matching the *end* of a place's projection: (lo, hi, name) or None.
+        An invariant is (owner ADT path, (field, …), lo, hi): e.g. TerminalState.size.width >= 1."""
+        if not self.invariants:
+            return None
+        fields = [el for el in pj.get("p", ()) if el != "*" and el[0] == "f"]
+        proj = pj.get("p", ())
+        if not proj or proj[-1] == "*" or proj[-1][0] != "f":
+            return None
+        for owner, path, lo, hi in self.invariants:
+            n = len(path)
+            if len(fields) >= n and tuple(el[2] for el in fields[-n:]) == path and fields[-n][3] == owner:
+                # the matched fields must be the trailing projection elements (no deref / index in between)
+                tail = proj[-n:]
+                if all(el != "*" and el[0] == "f" for el in tail):
+                    return (lo, hi, "%s.%s" % (owner.split("::")[-1], ".".join(path)))
+        return None
+
+    def field_inv_struct(self, pj):
+        """invariants whose path starts at the struct stored at this place: [(remaining field path, lo, hi, name)]"""
+        out = []
+        if not self.invariants:
+            return out
+        proj = pj.get("p", ())
+        if not proj or proj[-1] == "*" or proj[-1][0] != "f":
+            return out
+        for owner, path, lo, hi in self.invariants:
+            for k in range(1, len(path)):
+                fields = [el for el in proj if el != "*" and el[0] == "f"]
+                if len(fields) >= k and tuple(el[2] for el in fields[-k:]) == path[:k] and fields[-k][3] == owner \
+                        and all(el != "*" and el[0] == "f" for el in proj[-k:]):
+                    out.append((path[k:], lo, hi, "%s.%s" % (owner.split("::")[-1], ".".join(path))))
+        return out
+
     def len_val(self, st, place, tix):
         """value of the length of the container at `place`"""
         ty = self.T[tix] if tix is not None else None
@@ -178,6 +214,9 @@ class Analyzer:
         if r is not None:
             t = ("v", root, steps)
             st.set_iv(t, r[0], r[1])
+            inv = self.field_inv(pj)
+            if inv is not None:
+                st.set_iv(t, inv[0], inv[1])
             return ("n", t, 0), tix
         ty = self.T[tix]
         if ty["k"] in ("ref", "ptr"):
@@ -430,6 +469,18 @@ class Analyzer:
                     st.iv[t] = i
                 me = ("n", t, 0)
                 st.add_eq(me, v)
+                # one-step closure: what is known about the (temporary) source also holds for the stored place,
+                # so that it survives joins in which the temporaries differ
+                vt, k = v[1], v[2]
+                for (a, b), c in list(st.rel.items()):
+                    if a == vt and b != t and b != vt:
+                        cur = st.rel.get((t, b))
+                        if cur is None or c + k < cur:
+                            st.rel[(t, b)] = c + k
+                    elif b == vt and a != t and a != vt:
+                        cur = st.rel.get((a, t))
+                        if cur is None or c - k < cur:
+                            st.rel[(a, t)] = c - k
                 return
             i = (v[1], v[2])
             if r is not None:
@@ -635,6 +686,9 @@ class Analyzer:
             out = out[1]
         i = st.val_iv(out) if out[0] in ("n", "iv") else FULL
         if r != FULL and not iv_within(i, r):
+            if self.nowrap is not None and op in ("Add", "Sub") and out[0] == "n" and out[1] is not None and self.nowrap(out[1]) \
+                    and abs(out[2]) <= 65536 and a[0] == "n" and b[0] == "n" and (a[1] is None or b[1] is None):
+                return out          # A3: cursor coordinates are far from the i32 limits
             return ("iv", r[0], r[1])
         if extra is not None:
             return extra
@@ -905,11 +959,52 @@ class Analyzer:
             v, vt = self.rvalue(st, rv, s["p"])
             if v is None:
                 return
+            if self.invariants:
+                self.check_inv_store(st, s, v, rv)
             self.assign_typed(st, s["p"], v, rv)
         elif k == "setdiscr":
             c = self.canon(st, s["p"])
             if c is not None:
                 st.kill((c[0], c[1]), whole_local=not c[1])
+
+    def check_inv_store(self, st, s, v, rv):
+        pj = s["p"]
+        todo = []
+        inv = self.field_inv(pj)
+        if inv is not None:
+            vv = v
+            if vv[0] in ("sum", "diff", "rem", "quot"):
+                vv = vv[1]
+            if vv[0] == "nw":
+                vv = self.reduce_nw(st, vv)
+            todo.append((vv, inv))
+        else:
+            for rest, lo, hi, name in self.field_inv_struct(pj):
+                # struct store: the value's fields live under the source place
+                if rv["k"] == "use" and ("copy" in rv["a"] or "move" in rv["a"]):
+                    src = self.canon(st, rv["a"].get("copy") or rv["a"].get("move"))
+                    if src is not None:
+                        pl = (src[0], src[1] + rest)
+                        sv = st.sym.get(pl)
+                        vv = sv if (sv is not None and sv[0] in ("n", "iv")) else ("n", ("v", pl[0], pl[1]), 0)
+                        todo.append((vv, (lo, hi, name)))
+                        continue
+                todo.append((("iv", None, None), (lo, hi, name)))
+        for vv, (lo, hi, name) in todo:
+            cons = []
+            if vv[0] not in ("n", "iv"):
+                vv = ("iv", None, None)
+            if lo is not None:
+                cons.append((("n", None, lo), vv, 0))
+            if hi is not None:
+                cons.append((vv, ("n", None, hi), 0))
+            ok, un = self.conj_check(st, cons)
+            t = {"line": s.get("line"), "file": s.get("file"), "k": "assign"}
+            self.cur_state = st
+            self.cur_dirty = st.dirty
+            self.oblige(self.cur_block, "INV", ok, "D2" if ok else None, "store %s" % name, t,
+                        "value %s stored into %s may violate the field invariant [%s, %s]" % (self.vs(vv), name, lo, hi),
+                        None if ok else self.conj_lift(un, st))
 
     def assign_typed(self, st, pj, v, rv):
         # struct / tuple moves carry the facts about their fields
@@ -1195,6 +1290,7 @@ class Analyzer:
                         work.add(succ)
         self.res.iterations = iters
         self.res.in_states = ins
+        self.res.edge_states = edge
         if collect:
             self.collect = True
             self.eb = ExprBuilder(body)
@@ -1232,6 +1328,7 @@ class Analyzer:
 
     def transfer_block(self, bi, st):
         blk = self.b.blocks[bi]
+        self.cur_block = bi
         for s in blk["stmts"]:
             self.do_stmt(st, s)
             if st.bottom:
